@@ -1236,6 +1236,170 @@ let suite_scan t v =
   v.cls <- "D";
   v.nontrivial <- nscans >= 2
 
+(* ============================ suite W : payload wire format (C13) ============= *)
+let vw_byte seed i = (seed * 131 + i * 7 + i / 251) land 0xff
+
+let suite_wire t v =
+  let sep = ni t in
+  let np = ni t in
+  let parts = times np (fun () ->
+    let name = next t in let ren = next t in let prev = next t in let hash = next t in
+    let sec = next t in let nsec = next t in let size = next t in let beg = next t in let en = next t in
+    let data = next t in
+    let seed = int_of_string (String.sub data 1 (String.length data - 1)) in
+    (name, ren, prev, hash, sec, nsec, size, beg, en, seed)) in
+  let rb1 = ni t in let rb2 = ni t in let rb3 = ni t in let cut = ni t in let delta = ni t in
+  ignore rb1;
+  expect t "=";
+  let ihdr = next t in let ibodylen = ni t in let ibodymd5 = next t in
+  let status = next t in
+  let ndec = ni t in
+  let idec = times ndec (fun () ->
+    let name = next t in let ren = next t in let prev = next t in let hash = next t in
+    let sec = next t in let nsec = next t in let size = next t in let beg = next t in let en = next t in
+    let gotlen = ni t in let gotmd5 = next t in let complete = ni t in
+    (name, ren, prev, hash, sec, nsec, size, beg, en, gotlen, gotmd5, complete)) in
+  (* ---- model ---- *)
+  let ds = List.map (fun (name, ren, prev, hash, sec, nsec, size, beg, en, _) ->
+    { M.d_name = bytes_of_hex name; d_ren = bytes_of_hex ren; d_prev = bytes_of_hex prev; d_hash = bytes_of_hex hash;
+      d_sec = z_of_string sec; d_nsec = z_of_string nsec; d_size = z_of_string size; d_beg = z_of_string beg; d_end = z_of_string en }) parts in
+  let body_strs = List.map (fun (_, _, _, _, _, _, _, beg, en, seed) ->
+    let b = int_of_string beg and e = int_of_string en in
+    String.init (e - b) (fun i -> Char.chr (vw_byte seed (b + i)))) parts in
+  let zbytes s = List.init (String.length s) (fun i -> z_of_int (Char.code s.[i])) in
+  let str_of_z l = let b = Buffer.create 64 in List.iter (fun z -> Buffer.add_char b (Char.chr ((int_of_z z) land 0xff))) l; Buffer.contents b in
+  let mhdr = M.enc_header ds in
+  let mhdr_s = str_of_z mhdr in
+  let body_s = String.concat "" body_strs in
+  if hex_of_bytes mhdr <> ihdr then diff v "header-bytes";
+  if String.length body_s <> ibodylen || Digest.to_hex (Digest.string body_s) <> ibodymd5 then diff v "encoder-body";
+  let wire_s = mhdr_s ^ body_s in
+  let total = String.length wire_s in
+  let wire_s = if cut >= 0 && cut < total then String.sub wire_s 0 cut else wire_s in
+  let n = String.length mhdr_s + delta in
+  let g = let k = nat_of_int rb2 in (fun _ -> k) in
+  let mres = M.decode (z_of_int n) (z_of_int sep) (zbytes wire_s) (nat_of_int rb3) g in
+  let md5 s = Digest.to_hex (Digest.string s) in
+  let mdec = match mres with
+    | None -> None
+    | Some l -> Some (List.map (fun ((d, got), complete) ->
+        (hex_of_bytes d.M.d_name, hex_of_bytes d.M.d_ren, hex_of_bytes d.M.d_prev, hex_of_bytes d.M.d_hash,
+         string_of_z d.M.d_sec, string_of_z d.M.d_nsec, string_of_z d.M.d_size, string_of_z d.M.d_beg, string_of_z d.M.d_end,
+         List.length got, md5 (str_of_z got), if complete then 1 else 0)) l) in
+  (match status, mdec with
+   | "hdrerr", None -> ()
+   | "ok", Some l -> if l <> idec then diff v "decoded-parts"
+   | "hang", _ -> diff v "decoder-hangs"
+   | "hdrerr", Some _ -> diff v "header-refused-model-accepts"
+   | "ok", None -> diff v "header-accepted-model-refuses"
+   | _ -> diff v "status");
+  (* ---- oracles on what the implementation did (independent of the model's decoder) ---- *)
+  let model_same = (match status, mdec with "hdrerr", None -> true | "ok", Some l -> l = idec | _ -> false) in
+  if status = "hang" then oracle v "decoder_never_answers" false;
+  let hdrlen = String.length mhdr_s in
+  let tr s = (* the separator convention: generated segments contain neither the separator nor '/' *)
+    if sep = 92 then hex_of_bytes (List.map (fun z -> if int_of_z z = 92 then z_of_int 47 else z) (bytes_of_hex s)) else s in
+  let complete_all = status = "ok" && List.length idec = np && List.for_all (fun (_, _, _, _, _, _, _, _, _, _, _, c) -> c = 1) idec in
+  if cut < 0 && delta = 0 then begin
+    (* the undisturbed round trip: exactly what was encoded *)
+    let expected = List.map2 (fun (name, ren, prev, hash, sec, nsec, size, beg, en, _) b ->
+      (tr name, ren, tr prev, hash, sec, nsec, size, beg, en, String.length b, md5 b, 1)) parts body_strs in
+    if not (status = "ok" && idec = expected) then oracle v "decoded_differs_from_encoded" model_same
+  end else begin
+    if (cut >= 0 && cut < total) && complete_all then oracle v "truncated_payload_accepted_as_complete" model_same;
+    if delta <> 0 && complete_all then oracle v "wrong_header_length_accepted" model_same;
+    if cut >= 0 && cut < hdrlen && delta = 0 && status = "ok" then oracle v "truncated_header_accepted" model_same
+  end;
+  (* whatever arrives: a part only ever gets bytes of its own range *)
+  if status = "ok" && delta = 0 then
+    List.iteri (fun i (_, _, _, _, _, _, _, _, _, gotlen, gotmd5, _) ->
+      match List.nth_opt body_strs i with
+      | Some b -> if gotlen > String.length b || md5 (String.sub b 0 gotlen) <> gotmd5 then oracle v "part_got_bytes_of_another_part" model_same
+      | None -> oracle v "more_parts_than_encoded" model_same) idec;
+  v.cls <- "D";
+  v.nontrivial <- np >= 2 || cut >= 0 || delta <> 0
+
+(* ============================ suite WH : the wire format over HTTP (C13) ======= *)
+let suite_wire_http t v =
+  let level = ni t in
+  let sep = ni t in
+  let np = ni t in
+  let parts = times np (fun () ->
+    let name = next t in let ren = next t in let prev = next t in let hash = next t in
+    let sec = next t in let nsec = next t in let size = next t in let beg = next t in let en = next t in
+    let data = next t in
+    let seed = int_of_string (String.sub data 1 (String.length data - 1)) in
+    (name, ren, prev, hash, sec, nsec, size, beg, en, seed)) in
+  let cut = ni t in
+  expect t "=";
+  let status = ni t in
+  let nrec = ni t in
+  let irec = times nrec (fun () ->
+    let name = next t in let ren = next t in let prev = next t in let hash = next t in
+    let sec = next t in let nsec = next t in let size = next t in let beg = next t in let en = next t in
+    let gotlen = ni t in let gotmd5 = next t in let complete = ni t in
+    (name, ren, prev, hash, sec, nsec, size, beg, en, gotlen, gotmd5, complete)) in
+  let ds = List.map (fun (name, ren, prev, hash, sec, nsec, size, beg, en, _) ->
+    { M.d_name = bytes_of_hex name; d_ren = bytes_of_hex ren; d_prev = bytes_of_hex prev; d_hash = bytes_of_hex hash;
+      d_sec = z_of_string sec; d_nsec = z_of_string nsec; d_size = z_of_string size; d_beg = z_of_string beg; d_end = z_of_string en }) parts in
+  let body_strs = List.map (fun (_, _, _, _, _, _, _, beg, en, seed) ->
+    let b = int_of_string beg and e = int_of_string en in
+    String.init (e - b) (fun i -> Char.chr (vw_byte seed (b + i)))) parts in
+  let zbytes s = List.init (String.length s) (fun i -> z_of_int (Char.code s.[i])) in
+  let str_of_z l = let b = Buffer.create 64 in List.iter (fun z -> Buffer.add_char b (Char.chr ((int_of_z z) land 0xff))) l; Buffer.contents b in
+  let md5 s = Digest.to_hex (Digest.string s) in
+  let mhdr_s = str_of_z (M.enc_header ds) in
+  let wire_s = mhdr_s ^ String.concat "" body_strs in
+  let total = String.length wire_s in
+  let exact = (level = 0 || cut < 0) in      (* the cut position is in the uncompressed stream *)
+  let entry_of ((d, got), complete) =
+    (hex_of_bytes d.M.d_name, hex_of_bytes d.M.d_ren, hex_of_bytes d.M.d_prev, hex_of_bytes d.M.d_hash,
+     string_of_z d.M.d_sec, string_of_z d.M.d_nsec, string_of_z d.M.d_size, string_of_z d.M.d_beg, string_of_z d.M.d_end,
+     List.length got, md5 (str_of_z got), if complete then 1 else 0) in
+  let names_local l = List.for_all (fun ((d, _), _) ->
+    let n = str_of_z d.M.d_name and p = str_of_z d.M.d_prev and r = str_of_z d.M.d_ren in
+    local_name n && (p = "" || local_name p) && (r = "" || local_name r)) l in
+  let model_ok = ref true in
+  if exact then begin
+    let w = if cut >= 0 && cut < total then String.sub wire_s 0 cut else wire_s in
+    let g = let k = nat_of_int 4096 in (fun _ -> k) in
+    (match M.decode (z_of_int (String.length mhdr_s)) (z_of_int sep) (zbytes w) (nat_of_int 32768) g with
+     | None -> if not (status = 500 && irec = []) then (diff v "http-header-refusal"; model_ok := false)
+     | Some l ->
+         (* names are judged on the header alone, before any part is read *)
+         let hdr_only = (match M.decode_header (z_of_int (String.length mhdr_s)) (z_of_int sep) (zbytes w) with
+                         | Some (hd, _) -> List.map (fun d -> ((d, []), true)) hd | None -> []) in
+         if not (names_local hdr_only) then (if not (status = 400 && irec = []) then (diff v "http-nonlocal-name"; model_ok := false))
+         else begin
+           let ml = List.map entry_of l in
+           let all_complete = List.length l = np && List.for_all (fun (_, c) -> c) l in
+           let want = if all_complete then 200 else 206 in
+           if status <> want then (diff v "http-status"; model_ok := false);
+           if ml <> irec then (diff v "http-received-parts"; model_ok := false)
+         end)
+  end;
+  (* ---- oracles ---- *)
+  let tr s = if sep = 92 then hex_of_bytes (zbytes (go_split_join (str_of_hex s) "\\")) else hex_of_bytes (zbytes (go_split_join (str_of_hex s) "/")) in
+  if cut < 0 then begin
+    let expected = List.map2 (fun (name, ren, prev, hash, sec, nsec, size, beg, en, _) b ->
+      (tr name, ren, tr prev, hash, sec, nsec, size, beg, en, String.length b, md5 b, 1)) parts body_strs in
+    if not (status = 200 && irec = expected) then oracle v "received_differs_from_sent" (exact && !model_ok)
+  end else if cut < total || level <> 0 then begin
+    if status = 200 && (level = 0 || List.length irec = np) && cut < total && level = 0 then oracle v "truncated_request_accepted" !model_ok
+  end;
+  if status = -1 then oracle v "request_never_answered" false;
+  List.iteri (fun i (_, _, _, _, _, _, _, _, _, gotlen, gotmd5, _) ->
+    match List.nth_opt body_strs i with
+    | Some b -> if gotlen > String.length b || md5 (String.sub b 0 gotlen) <> gotmd5 then oracle v "part_got_bytes_of_another_part" (exact && !model_ok)
+    | None -> oracle v "more_parts_than_sent" false) irec;
+  (* a compressed request that was cut must not be answered 200 unless everything did arrive *)
+  if level <> 0 && cut >= 0 && status = 200 then begin
+    let all = List.length irec = np && List.for_all (fun (_, _, _, _, _, _, _, _, _, _, _, c) -> c = 1) irec in
+    if not all then oracle v "truncated_request_accepted" false
+  end;
+  v.cls <- "D";
+  v.nontrivial <- np >= 2 || cut >= 0 || level <> 0
+
 (* ============================ dispatch ====================================== *)
 let run_line line =
   let t = mk line in
@@ -1252,6 +1416,8 @@ let run_line line =
       | "F" -> suite_conf t v
       | "H" -> suite_http t v
       | "N" -> suite_scan t v
+      | "W" -> suite_wire t v
+      | "WH" -> suite_wire_http t v
       | "LC" -> suite_log_conc t v
       | s -> raise (Malformed ("unknown suite " ^ s)))
    with
